@@ -15,26 +15,6 @@ import (
 // C11 — HTTP session table: one request against an arbitrary table (step harness), the idle-timer reference
 // counting (one step from any state satisfying its invariant), and the stateless endpoint.
 
-type zzRec struct {
-	hdr  http.Header
-	code int
-	body string
-}
-
-func (w *zzRec) Header() http.Header { return w.hdr }
-func (w *zzRec) Write(b []byte) (int, error) {
-	if w.code == 0 {
-		w.code = 200
-	}
-	w.body += string(b)
-	return len(b), nil
-}
-func (w *zzRec) WriteHeader(c int) {
-	if w.code == 0 {
-		w.code = c
-	}
-}
-
 type zzC11Env struct {
 	served      []*StreamableServerTransport // transports whose ServeHTTP was invoked
 	connCloses  []*jsonrpc2.Connection
@@ -447,11 +427,6 @@ type zzLimitedBody struct {
 func (b *zzLimitedBody) Read(p []byte) (int, error) { return 0, io.EOF }
 func (b *zzLimitedBody) Close() error               { return nil }
 
-type zzRawBody struct{}
-
-func (zzRawBody) Read(p []byte) (int, error) { return 0, io.EOF }
-func (zzRawBody) Close() error               { return nil }
-
 func zzMaxBytesReader(w http.ResponseWriter, r io.ReadCloser, n int64) io.ReadCloser {
 	return &zzLimitedBody{inner: r, limit: n}
 }
@@ -503,11 +478,6 @@ func zzC12BodyLimit() {
 // Two consecutive requests on one handler, each arriving on its own local address with its own Host header: each is
 // judged on its own address and Host — refused with 403 and kept from the server iff it arrived on a loopback address
 // with a Host that is not loopback — whatever the handler has seen before.
-
-type zzAddr string
-
-func (a zzAddr) Network() string { return "tcp" }
-func (a zzAddr) String() string  { return string(a) }
 
 func zzC12Loopback() {
 	env := &zzC11Env{timers: map[*time.Timer]*zzTimer{}, media: "application/json"}
